@@ -93,6 +93,18 @@ def generate(rng, tier, seed):
         base = seed * 1000 + rng.randrange(1000)
         cases.append(mk(threads, [], [], ["random", base, 40 if thorough else 15]))
         cases.append(mk(threads, [], [], ["pct", 3, base, 20 if thorough else 8]))
+    # a task whose closure owns a resource guard: when the scheduler lets go of the finished task the guard's destructor - user code
+    # running on the worker thread between two tasks - posts the clean-up task (or aborts): the scheduler must not be holding its
+    # queue while it drops a task
+    for _ in range(12 if thorough else 5):
+        tid[0] = 0
+        g = ["post-guarded", 0, fresh(), rng.choice([post(fresh()), post(fresh()), ["abort", 0]])]
+        threads = [["c0"] + [post(fresh()) for _ in range(rng.randrange(0, 2))] + [g] + [post(fresh()) for _ in range(rng.randrange(0, 3))]]
+        if rng.random() < 0.4:
+            threads.append(["c1", post(fresh())])
+        base = seed * 1000 + rng.randrange(1000)
+        cases.append(mk(threads, [], [], ["random", base, 30 if thorough else 12]))
+        cases.append(mk(threads, [], [], ["pct", 3, base, 16 if thorough else 6]))
     # default scheduler: post runs the task synchronously
     for _ in range(20 if thorough else 6):
         tid[0] = 0
@@ -118,7 +130,7 @@ def abstract(ob):
         tid, tag = r[2], r[3]
         if tag in ("call", "ret"):
             a = r[4]
-            if a[0] == "post":
+            if a[0] in ("post", "post-guarded"):
                 hist.append([tag, tid, "post", a[2]])
             elif a[0] == "abort":
                 hist.append([tag, tid, "stop"])
